@@ -35,7 +35,8 @@ class ListingFake:
 
 
 def key_name(k):
-    return "%s/%02d%s" % ("run1" if k["under"] else "zzz", k["n"], ".mos.xml" if k["suf"] else ".txt")
+    sfx = {"end": ".mos.xml", "mid": ".mos.xml.bak", "none": ".txt"}[k["suf"]]
+    return "%s/%02d%s" % ("run1" if k["under"] else "zzz", k["n"], sfx)
 
 
 def list_case(cid, b):
@@ -63,10 +64,20 @@ def list_case(cid, b):
     return out
 
 
-def load_case(cid, what, text, tmproot):
+def load_case(cid, what, text, tmproot, encoding="utf-8"):
+    """the same content from every source; for encodings other than UTF-8 the content is bytes with the declaration /
+    byte-order mark XML requires, and the str source does not apply"""
     from mosromgr.mostypes import MosFile
     from mosromgr.moscollection import MosReader
     outs = []
+    if encoding == "utf-8":
+        data = text.encode("utf-8")
+    elif encoding == "iso-8859-1":
+        body = text.split("?>", 1)[1] if text.startswith("<?xml") else text
+        data = ('<?xml version="1.0" encoding="ISO-8859-1"?>' + body).encode("iso-8859-1", "replace")
+    else:
+        body = text.split("?>", 1)[1] if text.startswith("<?xml") else text
+        data = body.encode("utf-16")
 
     def rec(via, fn):
         try:
@@ -79,19 +90,20 @@ def load_case(cid, what, text, tmproot):
     d = tempfile.mkdtemp(prefix="src-", dir=tmproot)
     try:
         p = os.path.join(d, "doc.mos.xml")
-        with open(p, "w", encoding="utf-8") as f:
-            f.write(text)
-        collection.install_fake_s3(collection.FakeS3({"bkt": {"k/doc.mos.xml": text.encode("utf-8")}}))
+        with open(p, "wb") as f:
+            f.write(data)
+        collection.install_fake_s3(collection.FakeS3({"bkt": {"k/doc.mos.xml": data}}))
         rec("file", lambda: MosFile.from_file(p))
-        rec("str", lambda: MosFile.from_string(text))
-        rec("bytes", lambda: MosFile.from_string(text.encode("utf-8")))
+        if encoding == "utf-8":
+            rec("str", lambda: MosFile.from_string(text))
+            rec("reader-str", lambda: MosReader.from_string(text).mos_object)
+        rec("bytes", lambda: MosFile.from_string(data))
         rec("s3", lambda: MosFile.from_s3("bkt", "k/doc.mos.xml"))
         rec("reader-file", lambda: MosReader.from_file(p).mos_object)
-        rec("reader-str", lambda: MosReader.from_string(text).mos_object)
         rec("reader-s3", lambda: MosReader.from_s3("bkt", "k/doc.mos.xml").mos_object)
     finally:
         shutil.rmtree(d, ignore_errors=True)
-    return {"id": cid, "k": "load", "what": what, "outcomes": outs, "keys": [], "prefixGiven": False, "size": 1,
+    return {"id": cid, "k": "load", "what": what + "/" + encoding, "outcomes": outs, "keys": [], "prefixGiven": False, "size": 1,
             "how": "", "result": [], "raised": "~"}
 
 
@@ -117,8 +129,9 @@ def run(report, tier, seed):
         for r in range(reps):
             g = Gamma("%s|load|%s|%d" % (seed, c, r))
             text = g.ro(collection.ro_shape(1000, "RO1")) if c == "RunningOrder" else g.msg(class_message(c))
-            events.append(load_case("d%d" % n, c, text, tmproot))
-            n += 1
+            for enc in ("utf-8", "iso-8859-1", "utf-16"):
+                events.append(load_case("d%d" % n, c, text, tmproot, encoding=enc))
+                n += 1
     shutil.rmtree(tmproot, ignore_errors=True)
     bad, jst = pipeline.judge(events, "sources-" + report.prop, module="Trace_Sources")
     byid = {e["id"]: e for e in events}
